@@ -119,6 +119,15 @@ theorem hvDeleteDs_refines (st : St) (sid : Nat) (s : Session) (hs : st.sessions
   · simp [hx]
   · simp [hx]
 
+/-- which remover: for ANY operations, `delete_ds()` is `shutil.rmtree` for a zarr store and `os.remove` otherwise, on the
+data name with the extension of the Harvester's own engine, and nothing else -/
+theorem hvDeleteDs_dispatch {S D G E : Type} (o : StoreOps S D G E) (x : StoreExt S D G E) (st : S) :
+    Gen.hvDeleteDs o x false st =
+      if o.isZarr (some (o.selfEngine st)) then o.rmtree st (.ext (some (o.selfEngine st)))
+      else o.remove st (.ext (some (o.selfEngine st))) := by
+  simp only [Gen.hvDeleteDs, Gen.Default.hvDeleteDs, stBind_pure, Bool.false_eq_true, if_false, stBind_ok] <;>
+    cases o.isZarr (some (o.selfEngine st)) <;> simp
+
 /-- with `backup=True` the file is first copied aside; the copy stays when the file is removed -/
 theorem hvDeleteDs_backup (store : Store) (s : Session) (f : File)
     (hf : alookup store (autoAddExt s.name s.engine) = some f)
@@ -151,10 +160,13 @@ theorem hvFullDs_refines (st : St) (sid : Nat) (s : Session) (hs : st.sessions[s
   have key : Gen.hvFullDs ops ext (st.store, s) =
       if s.mem.isNone then Gen.hvLoadFull ops none (st.store, s) else ((st.store, s), none) := by
     have hmn : ops.memIsNone (st.store, s) = s.mem.isNone := rfl
+    -- (the case split also covers the body written with an early return of what is in memory)
     first
-    | (simp only [Gen.hvFullDs, stBind_pure, hmn]; done)
+    | (simp only [Gen.hvFullDs, stBind_pure, hmn] <;> cases s.mem.isNone <;> simp
+       done)
     | (have e1 : @Gen.hvLoadFull = @Gen.Default.hvLoadFull := rfl
-       simp only [Gen.hvFullDs, Gen.Default.hvFullDs, stBind_pure, e1, hmn]; done)
+       simp only [Gen.hvFullDs, Gen.Default.hvFullDs, stBind_pure, e1, hmn] <;> cases s.mem.isNone <;> simp
+       done)
   rw [key, hvLoadFull_refines]
   unfold fullDs
   simp only [hs]
